@@ -53,6 +53,10 @@ def values_for(R, idx, sel):
                   ("c", [2, [-20-i for i in range(len(p))]]), ("c+1", [2, [-20-i for i in range(len(p)+1)]]), ("c1", [2, [-8]]),
                   ("r", [3, [[-30-i*10-j for j in range(len(r))] for i, r in enumerate(p)]])]
     if p: out.append(("r-bad", [3, [[-30-i*10-j for j in range(len(r) + (1 if i == 0 else 0))] for i, r in enumerate(p)]]))
+    if len(p) >= 2 and n:       # the same number of cells in all, but other row lengths (one cell moved to the next row): refused, and nothing written
+        k0 = next(i for i, r in enumerate(p) if r); k1 = (k0 + 1) % len(p)
+        lens2 = [len(r) for r in p]; lens2[k0] -= 1; lens2[k1] += 1
+        out.append(("r-shifted", [3, [[-50-i*10-j for j in range(l)] for i, l in enumerate(lens2)]]))
     return out
 def _unused_to_value(v):
     k, p = v
@@ -74,7 +78,7 @@ def impl_chunk(items):
                 k, p = v
                 val = p if k == 0 else np.array(p, dtype=int) if k == 1 else np.array(p, dtype=int).reshape(-1, 1) if k == 2 else RaggedArray(p, dtype=int)
                 a[to_py(idx)] = val; e = a.tolist()
-            except Exception: e = None
+            except Exception: e = ["refused", a.tolist()]          # a refused assignment must leave the array as it was (no partial write)
             # a boolean row mask spelled as a plain Python list must write the same cells as the ndarray spelling
             rs0 = idx[0] if isinstance(idx, tuple) and len(idx) == 2 else idx
             if isinstance(rs0, list) and rs0 and isinstance(rs0[0], bool):
@@ -82,13 +86,14 @@ def impl_chunk(items):
                 try:
                     raw = (list(rs0), to_py(idx)[1]) if isinstance(idx, tuple) else list(rs0)
                     a2[raw] = val; e2 = a2.tolist()
-                except Exception: e2 = None
+                except Exception: e2 = ["refused", a2.tolist()]
                 if e2 != e: e = {"ndarray mask": e, "python-list mask": e2}
-            out.append(("setitem " + show(R) + " " + show(enc_index(idx)) + " " + show(v), e, len(R) >= 2 and sel not in (None, [1, []], [2, []]), name))
+            out.append(("setitem " + show(R) + " " + show(enc_index(idx)) + " " + show(v), e, len(R) >= 2 and sel not in (None, [1, []], [2, []]), name, R))
     return out
 
 def run(Rn, tier, rng):
     from harness import c06, fam_ra2
+    self_assign_stage(Rn, tier, rng)
     huge_stage(Rn, tier, rng)
     c06.big_derived_stage(Rn, tier, rng)
     fam_ra2.run_c03(Rn, tier, rng)            # dtype-wide assignments (floats with 1e16 / inf, extremes), mask assignment with per-cell values
@@ -99,10 +104,43 @@ def run(Rn, tier, rng):
     with multiprocessing.Pool(16) as pool:
         cases = [c for part in pool.map(impl_chunk, chunks) for c in part]
     out = oracle([c[0] for c in cases])
-    for (line, impl, nt, kind), o in zip(cases, out):
+    for (line, impl, nt, kind, R0), o in zip(cases, out):
         if o.startswith("ERR"): m = s = "oracle-error: " + o[:80]
-        else: m, s = parse(o)
+        else:
+            m, s = parse(o)
+            if m is None: m = ["refused", R0]           # refused by the model / the specification: nothing is written
+            if s is None: s = ["refused", R0]
         Rn.record(line, impl, m, s, nt, kind)
+
+
+def self_assign_stage(Rn, tier, rng):
+    """the array itself as the value (a[sel] = a) with selections that permute its cells: the same as assigning an independent copy.
+    The cell every selected position refers to is read off an identity array through the same selection (C02)."""
+    from npstructures import RaggedArray
+    bases = [[[1, 2, 3], [4, 5], [6, 7, 8]], [[1, 2], [3, 4], [5, 6]], [[1, 2, 3, 4]], [[1], [2, 3], [4]], [[], [1, 2], []]]
+    sels = [("[:, ::-1]", (slice(None), slice(None, None, -1))), ("[::-1]", slice(None, None, -1)), ("[[1, 0, 2]]", [1, 0, 2]), ("[...]", Ellipsis), ("[:]", slice(None)),
+            ("[::-1, ::-1]", (slice(None, None, -1), slice(None, None, -1)))]
+    for B in bases:
+        lens = [len(r) for r in B]
+        ids = []; c = 0
+        for l in lens: ids.append(list(range(c, c + l))); c += l
+        flat_old = [v for r in B for v in r]
+        for sname, sel in sels:
+            idx = (np.array(sel) if isinstance(sel, list) else sel)
+            try: target = RaggedArray(ids, dtype=int)[idx].tolist()
+            except Exception: continue
+            if [len(r) for r in target] != lens: continue                       # the selection must have the array's own shape
+            new_flat = list(flat_old)
+            for trow, vrow in zip(target, B):
+                for t, v in zip(trow, vrow): new_flat[t] = v
+            want = []; c = 0
+            for l in lens: want.append(new_flat[c:c + l]); c += l
+            for vname in ("itself", "a copy"):
+                def f():
+                    a = RaggedArray(B, dtype=int)
+                    a[idx] = a if vname == "itself" else RaggedArray(B, dtype=int)
+                    return a.tolist()
+                Rn.record(f"self-assign {B}{sname} = {vname}", guarded(f), want, want, True, "self-assignment/" + vname, py=f"a = RaggedArray({B}); a{sname} = " + ("a" if vname == "itself" else f"RaggedArray({B})") + "; a.tolist()")
 
 
 def huge_stage(Rn, tier, rng):
